@@ -75,6 +75,8 @@ class _TrimListsVisitor(ModelVisitor):
     """Drops the elements by which random-size lists were extended for a call"""
     
     def visit_field_scalar_array(self, f):
+        # (nothing was solved: the size field holds the extended length)
+        f.restore_pre_call_len()
         f.trim_to_size()
         
 
@@ -638,6 +640,14 @@ class Randomizer(RandIF):
                 ConstraintOverrideRollbackVisitor.rollback(fm)
             # Make sure no field keeps a handle into this call's solver 
             # instances, whatever way the solve ended
+            # Random-size lists whose size was not solved for by the time
+            # the call ended (their size field then holds the extended length)
+            unsolved_l = []
+            for rs in ri.randsets():
+                for f in rs.all_fields():
+                    if hasattr(f.parent, "restore_pre_call_len") and \
+                        f.parent.size.is_used_rand and f.parent not in unsolved_l:
+                        unsolved_l.append(f.parent)
             for rs in ri.randsets():
                 # (also reaches what the constraints refer to without it being 
                 # a field of the set, e.g. the size of a list referenced as a whole)
@@ -658,6 +668,8 @@ class Randomizer(RandIF):
                 if hasattr(f.parent, "trim_to_size"):
                     f.parent.trim_to_size()
             if not solved:
+                for lst in unsolved_l:
+                    lst.restore_pre_call_len()
                 for fm in field_model_l:
                     fm.set_used_rand(False, 0)
 
